@@ -3,7 +3,7 @@
 From Coq Require Import String.
 From PS Require Import Base GFDefs PackDefs StoreDefs MiscDefs StrDefs LangDefs ApiDefs SpecDefs SpecApi.
 From PS Require Import GFProofs MiscProofs PackProofs PackTheorems StoreProofs SeedProofs ApiLemmas RefineProofs ApiTheorems.
-From PS Require Import FrameProofs CTieBase CTieLang CTieStore CTieApi.
+From PS Require Import FrameProofs RoundTrip LangData CTieBase CTieLang CTieStore CTieApi CTieCmp CTiePhrase CTieEncode CTieClosed.
 From PS.Gen Require Import Consts PrivConsts Langs.
 From PS.Gen Require CFuns CApi.
 Local Open Scope N_scope.
@@ -86,4 +86,59 @@ Proof.
   destruct T2 as (c2&d2&C2&_&_&H2&_).
   rewrite H2, FrameProofs.get_set, N.eqb_refl, G1 in TW. injection TW as ->.
   exists c1, d1, c2. split; [exact C1 | exact C2].
+Qed.
+
+(* C01 on the code: the phrase the translated polyseed_encode writes for a live seed, handed (as the C string it is)
+   to the translated polyseed_decode_explicit with the same coin and language, gives a new block holding the same
+   struct.  The search inside is the translated polyseed_lang_find_word (CTieClosed); hypotheses: libc bsearch, the
+   injected normalisers (NormOK: decomposing the published phrase gives back the words joined by single spaces;
+   proved for the ASCII lists, C01_premise_ascii), fuel. *)
+Theorem code_roundtrip_explicit (sgn : bool) cs a h d li L coin fuel BS D out0 gb gf gs gc so0 :
+  R cs a -> heap_get (st_heap cs) h = Some d -> nth_error langs li = Some L -> coin < 2048 ->
+  spec_supported (as_mask a) (d_features d) = true ->
+  let dp := st_deps cs in
+  let P := published dp L (abs_data d) coin in
+  NormOK dp L (abs_data d) coin -> no_nul P ->
+  (2050 <= fuel)%nat -> (length P + 2 <= fuel)%nat ->
+  (forall li L key, nth_error langs li = Some L -> no_nul key ->
+     BS (Z.of_nat li) (zs key) 2048%Z (CApi.get_comparer (CTieCmp.flag (l_has_prefix L)) (CTieCmp.flag (l_has_accents L)) (Z.of_nat li)) =
+     CTiePhrase.enc (bsearch_loop 13 (fun j => comparer sgn L key (nth j (l_words L) [])) 0 LANG_SIZE_nat)) ->
+  (forall x, snd (dp_nfc dp x) < 2 ^ 64) ->
+  D (zs P) = (zs (fst (dp_nfkd dp P)), zN (snd (dp_nfkd dp P))) -> no_nul (fst (dp_nfkd dp P)) ->
+  (length (fst (dp_nfkd dp P)) + 2 <= fuel)%nat -> (1 <= length out0)%nat ->
+  exists c1 rest n c2,
+    CApi.polyseed_encode fuel sgn (CTieEncode.znfc dp)
+      (fun _ i => zs (nth (Z.to_nat i) (l_words L) [])) (fun _ => zs (l_separator L)) (fun _ => if l_compose L then 1%Z else 0%Z)
+      (zN (d_birthday d)) (zN (d_features d)) (map zN (d_secret d)) (zN (d_checksum d)) (Z.of_nat li) (zN coin) out0
+    = Some (c1, zs P ++ 0%Z :: rest, n) /\
+    CApi.polyseed_decode_explicit fuel sgn D (CTieClosed.ext_code sgn fuel BS) (ptr (st_next cs)) CFuns.polyseed_mul2_table
+      (zN (st_reserved cs)) (zs P) (zN coin) (Z.of_nat li) gb gf gs gc so0
+    = Some (c2, zN (d_birthday d), zN (d_features d), map zN (d_secret d), zN (d_checksum d), ptr (st_next cs), 0%Z).
+Proof.
+  intros HR Hg HL Hc Hsup dp P HN Hnn Hfuel HfP HBS Hnfc HD Hnn2 Hfn Hout.
+  pose proof (heap_get_valid _ _ _ (R_valid _ _ HR) Hg) as V. destruct V as [HC Ek].
+  assert (K : d_checksum d < 2048) by (rewrite Ek; apply spec_checksum_lt).
+  assert (InL : In L langs) by (apply nth_error_In in HL; exact HL).
+  destruct (roundtrip_explicit sgn cs a h d li L coin HR Hg HL Hc Hsup HN Hnn) as (n & E1 & E2 & E3).
+  fold dp in E1, E2, E3. fold P in E1, E2, E3.
+  (* encode *)
+  assert (Hfw : forall j, (length (nth j (l_words L) []) + 1 <= fuel)%nat) by (intros j; pose proof (CTieClosed.words_short L j InL); lia).
+  assert (Hfs : (length (l_separator L) + 1 <= fuel)%nat).
+  { assert (F : forallb (fun L => Nat.leb (length (l_separator L)) 8) langs = true) by (vm_compute; reflexivity).
+    rewrite forallb_forall in F. specialize (F L InL). apply Nat.leb_le in F.
+    apply (Nat.le_trans _ (8 + 1)); [apply Nat.add_le_mono_r; exact F | lia]. }
+  pose proof (CTieEncode.tie_encode sgn cs fuel li L HL Hfw Hfs Hnfc h d coin out0 Hg HC K Hc Hout) as TE.
+  unfold outp in E1.
+  destruct (step sgn langs cs (OpEncode h li coin)) as [[st1 o1] e1]. cbn [fst snd] in E1. subst o1.
+  destruct TE as (c1 & rest & CE & _ & _).
+  (* decode *)
+  pose proof (CTieClosed.tie_decode_explicit_closed sgn fuel BS Hfuel HBS cs D P coin li L true gb gf gs gc so0 HL Hnn Hc HfP HD Hnn2 Hfn) as TD.
+  unfold outp, stp in E2, E3.
+  destruct (step sgn langs cs (OpDecodeExplicit P coin li true)) as [[st2 o2] e2]. cbn [fst snd] in E2, E3. subst o2.
+  destruct TD as (c2 & b & f & s & c & so & status & CD & _ & Eo & Eh).
+  assert (Est : status = 0%Z) by (destruct (status =? 0)%Z eqn:Z0; [apply Z.eqb_eq, Z0 | discriminate Eo]).
+  subst status. cbn [Z.eqb] in Eh. destruct Eh as (-> & d' & Hh & Ed).
+  rewrite Hh in E3. cbn [heap_get] in E3. rewrite N.eqb_refl in E3. injection E3 as ->.
+  unfold zd in Ed. injection Ed as -> -> -> ->.
+  exists c1, rest, (zN n), c2. split; [exact CE | exact CD].
 Qed.
